@@ -266,11 +266,24 @@ func runR043(c *core.Ctx) {
 							// assignments to v
 							for _, o := range core.AssignedObjs(inf, n) {
 								if o == v {
+									// the value v receives in a (possibly parallel) assignment: `v, err = v, nil` spliced in from
+									// a helper's return keeps what is known; `v, err = v.Elem(), nil` is the Elem case below
+									var vRhs ast.Expr
+									if as, ok := n.(*ast.AssignStmt); ok && len(as.Lhs) == len(as.Rhs) {
+										for i, l := range as.Lhs {
+											if core.ObjOf(inf, l) == v {
+												vRhs = as.Rhs[i]
+											}
+										}
+									}
+									if vRhs != nil && core.ObjOf(inf, vRhs) == v {
+										continue
+									}
 									wasNonNil := state&4 != 0
 									state = 0
 									// v = v.Elem() of a pointer proven non-nil (IsNil() false edge) is a valid value
-									if as, ok := n.(*ast.AssignStmt); ok && len(as.Rhs) == 1 && len(as.Lhs) == 1 && wasNonNil {
-										if call, ok := core.Unparen(as.Rhs[0]).(*ast.CallExpr); ok {
+									if vRhs != nil && wasNonNil {
+										if call, ok := core.Unparen(vRhs).(*ast.CallExpr); ok {
 											if sel, ok := core.Unparen(call.Fun).(*ast.SelectorExpr); ok && sel.Sel.Name == "Elem" && core.ObjOf(inf, sel.X) == v {
 												for _, a := range allowed {
 													if a == "*valid" {
